@@ -1,6 +1,7 @@
 /- Driver ops for C17 (structure decorators). -/
 import Driver.Loop
 import Model.Decorators
+import Model.DecoratorsConfig
 
 open Lean Model Model.Dec
 
@@ -149,10 +150,26 @@ def project : Op := fun j => do
   let centre ← getF2 (← field j "centre")
   let angle ← getFloat (← field j "angle")
   let fn ← getFunc numFloat (← field j "func")
-  let seen := projectGridInput floatTrig floatTrunc 90.0 extent scales centre angle g
+  -- the configuration value `general.grid.remove_projected_centre` in force at call time (default: the pinned false)
+  let rc ← getBool (fieldD j "remove_centre" (Json.bool false))
+  let seen := projectGridInputCfg floatTrig floatTrunc 90.0 extent scales centre angle rc g
   let vals : Json := if fn.cx.isEmpty then floatsToJson (scalarOf numFloat fn seen)
     else ptsToJson numFloat (pairOf numFloat fn seen)
   pure (obj [("seen", ptsToJson numFloat seen), ("values", vals)])
+
+/-- `Grid2D.grid_2d_radial_projected_from(centre, angle, remove_projected_centre=explicit)` called directly:
+    `explicit` = null (not given) / true / false, `config` = the configuration value in force -/
+def projLine : Op := fun j => do
+  let extent ← getF4 (← field j "extent")
+  let scales ← getF2 (← field j "scales")
+  let centre ← getF2 (← field j "centre")
+  let angle ← getFloat (← field j "angle")
+  let config ← getBool (← field j "config")
+  let explicit : Option Bool ← match fieldD j "explicit" Json.null with
+    | Json.null => pure none
+    | b => do pure (some (← getBool b))
+  pure (obj [("seen", ptsToJson numFloat
+    (grid2dProjectedCfg floatTrig floatTrunc extent centre scales angle explicit config))])
 
 /-- `relocate_to_radial_minimum` under `transform`: the mock profile subtracts its centre, then the
     decorator relocates; returns the grid handed to the function -/
@@ -185,7 +202,7 @@ where
 
 def ops : List (String × Op) :=
   [("c17.decorate", decorate), ("c17.project", project), ("c17.relocate", relocateOp),
-   ("c17.transform", transformOp)]
+   ("c17.transform", transformOp), ("c17.projline", projLine)]
 
 end Driver.C17
 
